@@ -105,8 +105,12 @@ class OptionBag:
         self._basic_key = schema.registry.get("basic-key")
         for item in options:
             optpath, val, pos = item
-            name = sectiontype.keytype(optpath[0])
             if len(optpath) == 1:
+                try:
+                    name = sectiontype.keytype(optpath[0])
+                except ValueError as e:
+                    raise ZConfig.ConfigurationSyntaxError(
+                        f"could not convert key name to keytype: {e}", *pos)
                 self.add_value(name, val, pos)
             else:
                 self.sectitems.append(item)
@@ -149,16 +153,22 @@ class OptionBag:
         for item in self.sectitems:
             optpath, val, pos = item
             s = optpath[0]
-            bk = self.basic_key(s, pos)
             if name and self._normalize_case(s) == name:
                 L.append((optpath[1:], val, pos))
-            elif bk == type_:
+            elif self._is_type_name(s, type_):
                 L.append((optpath[1:], val, pos))
             else:
                 R.append(item)
         if L:
             self.sectitems[:] = R
             return OptionBag(self.schema, self.schema.gettype(type_), L)
+
+    def _is_type_name(self, s, type_):
+        # a path component that is not a basic-key cannot name a type
+        try:
+            return self._basic_key(s) == type_
+        except ValueError:
+            return False
 
     def finish(self):
         if self.sectitems or self.keypairs:
